@@ -236,6 +236,25 @@ pub fn conforms(expect: &J, got: &J) -> bool {
                     return false;
                 }
             }
+            // C06: the message carries the conversion error / the guard's own message
+            if let Some(w) = expect.get("carries_conv").and_then(J::as_str) {
+                let bytes = dec(w);
+                let msg = match std::str::from_utf8(&bytes) {
+                    Ok(t) => match t.parse::<u32>() {
+                        Err(e) => e.to_string(),
+                        Ok(_) => String::new(),
+                    },
+                    Err(_) => String::new(),
+                };
+                if !got["text"].as_str().unwrap_or("").contains(&msg) {
+                    return false;
+                }
+            }
+            if let Some(id) = expect.get("carries_guard").and_then(J::as_str) {
+                if !got["text"].as_str().unwrap_or("").contains(crate::build::guard_msg(id)) {
+                    return false;
+                }
+            }
             !got["text"].as_str().unwrap_or("").is_empty()
         }
         _ => true,
